@@ -71,7 +71,7 @@ func (c *checker) evalExpr(e hcl.Expression, depth int) {
 		c.checkRange(e.Range(), "Expression.Range()", "")
 		c.checkRange(e.StartRange(), "Expression.StartRange()", "")
 		for _, tr := range e.Variables() {
-			c.checkTraversal(tr, "Variables()")
+			c.checkTraversal(tr, c.postKey("Variables()"))
 		}
 		_, d := e.Value(nil)
 		c.checkDiags(d, "post")
@@ -80,12 +80,12 @@ func (c *checker) evalExpr(e hcl.Expression, depth int) {
 	})
 	c.guard("static-analysis", func() {
 		if tr, d := hcl.AbsTraversalForExpr(e); !d.HasErrors() {
-			c.checkTraversal(tr, "AbsTraversalForExpr")
+			c.checkTraversal(tr, c.postKey("AbsTraversalForExpr"))
 		} else {
 			c.checkDiags(d, "post")
 		}
 		if tr, d := hcl.RelTraversalForExpr(e); !d.HasErrors() {
-			c.checkTraversal(tr, "RelTraversalForExpr")
+			c.checkTraversal(tr, c.postKey("RelTraversalForExpr"))
 		}
 		_ = hcl.ExprAsKeyword(e)
 		_ = hcl.UnwrapExpression(e)
@@ -229,7 +229,7 @@ func (c *checker) evalBody(b *hclsyntax.Body) {
 		_, d = hcldec.Decode(b, spec, nil)
 		c.checkDiags(d, "post")
 		for _, tr := range hcldec.Variables(b, spec) {
-			c.checkTraversal(tr, "hcldec.Variables")
+			c.checkTraversal(tr, c.postKey("hcldec.Variables"))
 		}
 		c.checkRange(hcldec.SourceRange(b, spec), "hcldec.SourceRange", "")
 		_, _, d = hcldec.PartialDecode(b, hcldec.ObjectSpec{}, c.ctx)
